@@ -41,6 +41,9 @@ class Unit:
 
     def __init__(self, spec, scratch):
         self.mod = spec["mod"]            # /repo or /repo/v2
+        repo = os.environ.get("VERIF_REPO", "/repo")  # background runs may point at a snapshot of /repo
+        if repo != "/repo" and self.mod.startswith("/repo"):
+            self.mod = repo + self.mod[len("/repo"):]
         self.pkg = spec.get("pkg", ".")   # package path relative to the module
         self.hdir = os.path.join(VERIF, spec["harness_dir"])
         self.scratch = scratch
